@@ -159,8 +159,6 @@ def invalid_char_offsets(t: str, allow: bool) -> bool:
             return False
         if iss.get("char_index") != 1 + k or iss.get("char_index_end") != 2 + k:
             return False
-        if iss["message"] != M.render(parts, t, t[k], "") + M.suffix(1 + k, 2 + k):
-            return False
     return n == len(issues)
 
 
@@ -705,8 +703,8 @@ HARNESSES = [
                         timeout=1800, path_timeout=60, bound="same with len(t) <= 3"),
         what="the caller's index arithmetic: the tag-name character check reports one CHARACTER_INVALID issue per "
              "character outside [A-Za-z0-9-_/] (and '#' when placeholders are allowed), in order, each with offsets "
-             "selecting exactly that occurrence (also when the same character occurs twice) and a message quoting "
-             "it with one location suffix",
+             "selecting exactly that occurrence (also when the same character occurs twice); the message text "
+             "built from those offsets is subtag_messages' / subtag_offsets' subject",
         oracle="inline character predicate + models/issues_ref.py (SUBTAG message parts, suffix)",
         stubs=[_STUB_PARSE, _STUB_NS],
         outside="characters outside the 14-character alphabet (all printable ASCII did not exhaust: ~5 s of z3 per "
